@@ -36,6 +36,53 @@ def execute_and_validate(v, cases, name):
     return res
 
 
+def shape_directed_cases(maxn, first_id):
+    """Boundary cases of the rebalancing code, found by shape rather than by chance: every insertion
+    order of n <= maxn keys is executed on the real map (not validated, only observed); for every distinct
+    physical tree shape that occurs, one insertion order reaching it is continued by every single removal
+    and by every single insertion into a gap - those sequences are validated by OrdMapTrace like all
+    others.  (A removal on the light side of a node is the only way to reach some rotation cases.)"""
+    import itertools
+    import json
+    d = vlib.workdir("c14-shapes")
+    probes = []
+    for n in range(3, maxn + 1):
+        keys = [2 * i for i in range(1, n + 1)]
+        for perm in itertools.permutations(keys):
+            probes.append({"id": len(probes) + 1, "nh": 1,
+                           "ops": [{"op": "insert", "h": 1, "h2": 0, "h3": 0, "k": k, "v": i + 1} for i, k in enumerate(perm)]})
+    ops = os.path.join(d, "ops.ndjson")
+    trace = os.path.join(d, "trace.ndjson")
+    vlib.write_ndjson(ops, probes)
+    r = vlib.run([os.path.join(vlib.BIN, "rt-driver"), "wbt", ops, trace], timeout=1200)
+    if r.returncode != 0:
+        raise vlib.ToolError("rt-driver failed: " + r.stderr[-2000:])
+    last = {}
+    with open(trace) as f:
+        for line in f:
+            e = json.loads(line)
+            if e.get("ev") == "op" or "st" in e:
+                last[e["id"]] = e
+    reps = {}
+    for p in probes:
+        e = last.get(p["id"])
+        if e is None or "st" not in e:
+            continue
+        key = json.dumps(e["st"][0]["shape"], sort_keys=True)
+        reps.setdefault(key, p)
+    cases = []
+    for key, p in sorted(reps.items()):
+        n = len(p["ops"])
+        present = [o["k"] for o in p["ops"]]
+        for k in sorted(present):
+            cases.append({"id": first_id + len(cases), "nh": 1,
+                          "ops": p["ops"] + [{"op": "remove", "h": 1, "h2": 0, "h3": 0, "k": k, "v": 0}]})
+        for k in range(1, 2 * n + 2, 2):
+            cases.append({"id": first_id + len(cases), "nh": 1,
+                          "ops": p["ops"] + [{"op": "insert", "h": 1, "h2": 0, "h3": 0, "k": k, "v": 99}]})
+    return cases, len(probes), len(reps)
+
+
 def run(tier, replay):
     v = vlib.Verdict(PROP, tier, LEVEL)
     vlib.cargo_build(["rt-driver"])
@@ -57,6 +104,10 @@ def run(tier, replay):
     rnd = gen_ops.wbt_cases(vlib.seed(), 120 if thorough else 30, 400 if thorough else 200, 64 if thorough else 40, 3,
                             first_id=len(cases) + 1)
     res2 = execute_and_validate(v, rnd, "c14-rnd")
+    directed, nprobes, nshapes = shape_directed_cases(8 if thorough else 7, len(cases) + len(rnd) + 1)
+    res3 = execute_and_validate(v, directed, "c14-shapes-val")
+    res2 = {k: (res2[k] + res3[k] if k in ("_states", "_generated", "events", "drift") else res2[k]) for k in res2}
+    rnd = rnd + directed
     v.coverage = {
         "states": alg["distinct"] + mc["distinct"] + res1["_states"] + res2["_states"],
         "transitions": alg["generated"] + mc["generated"] + res1["_generated"] + res2["_generated"],
@@ -64,6 +115,7 @@ def run(tier, replay):
         "samples": [cases[len(cases) // 2], {"id": rnd[0]["id"], "nh": 3, "ops": rnd[0]["ops"][:12], "note": "first 12 ops"}],
         "design_states": {"WBTreeAlg": alg["distinct"], "N": n, "MCOrdMap": mc["distinct"]},
         "exhaustive_sequences": len(cases),
+        "shape_directed": {"insertion_orders_probed": nprobes, "distinct_shapes": nshapes, "sequences": len(directed)},
         "random_sequences": len(rnd),
         "trace_events": res1["events"] + res2["events"],
         "shape_drift_events": res1["drift"] + res2["drift"],
